@@ -498,18 +498,25 @@ def corpus_phase(ctx: Ctx):
 def plans(tier):
     """(scope, TLC Ver, ModelSet, syms, MaxLen, schema classes judged)"""
     ab, abc, var = ["a", "b"], ["a", "b", "c"], ["a", "b", "m", "o"]
+    varf = var + ["f"]
     if tier == "quick":
         return [("depth1", "1.0", "Depth1", ab, 4, ["1.0", "1.1"]),
                 ("depth2q", "1.0", "Depth2Q", ab, 4, ["1.0", "1.1"]),
                 ("all", "1.0", "AllQ", abc, 4, ["1.0", "1.1"]),
                 ("leafvar10", "1.0", "LeafVar", var, 3, ["1.0"]),
-                ("leafvar11", "1.1", "LeafVar", var, 3, ["1.1"])]
+                ("leafvar11", "1.1", "LeafVar", var, 3, ["1.1"]),
+                ("leafvarf10", "1.0", "LeafVarF", varf, 3, ["1.0"]),
+                ("leafvarf11", "1.1", "LeafVarF", varf, 3, ["1.1"]),
+                ("mid3", "1.0", "Mid3", ab, 4, ["1.0", "1.1"])]
     return [("depth1", "1.0", "Depth1", ab, 5, ["1.0", "1.1"]),
             ("depth2q", "1.0", "Depth2Q", ab, 5, ["1.0", "1.1"]),
             ("depth2", "1.0", "Depth2", ab, 4, ["1.0", "1.1"]),
             ("all", "1.0", "All11", abc, 5, ["1.0", "1.1"]),
             ("leafvar10", "1.0", "LeafVar", var, 4, ["1.0"]),
-            ("leafvar11", "1.1", "LeafVar", var, 4, ["1.1"])]
+            ("leafvar11", "1.1", "LeafVar", var, 4, ["1.1"]),
+            ("leafvarf10", "1.0", "LeafVarF", varf, 3, ["1.0"]),
+            ("leafvarf11", "1.1", "LeafVarF", varf, 3, ["1.1"]),
+            ("mid3", "1.0", "Mid3", ab, 4, ["1.0", "1.1"])]
 
 
 def run(ctx: Ctx, collect=None, only=None):
